@@ -56,7 +56,8 @@ def eval_leg(pid, leg, cases, tier, workdir, name):
         cs = common.run_harness(leg["family"], cases, profile, workdir, name)
         t1 = time.time()
         corr_fail, orc_fail, err = common.run_model(fam, cs, leg.get("mask"), leg.get("oracles", []) + leg.get("tie_oracles", []), workdir,
-                                                    "%s_%s" % (name, profile), coq_sample=(leg.get("coq_sample", 4) if profile == "debug" else 0))
+                                                    "%s_%s" % (name, profile), coq_sample=(leg.get("coq_sample", 4) if profile == "debug" else 0),
+                                                    nshards=(leg.get("shards_thorough", common.NCPU) if tier == "thorough" else common.NCPU))
         log("timing %s %s/%s %s: crate %.1fs, model+oracles %.1fs (%d cases)" % (pid, leg["family"], leg.get("focus"), profile,
                                                                                t1 - t0, time.time() - t1, len(cases)))
         out[profile] = dict(cases=cs, corr_fail=corr_fail, orc_fail=orc_fail, err=err)
